@@ -91,6 +91,12 @@ def run_one(args):
             counts[k] = counts.get(k, 0) + 1
         COUNTS[item["id"]] = counts
         keys = sorted(set("%s:%s" % (v["rule"], v["key"]) for v in res.violations) - base_keys)
+        try:
+            known_ = set(k["key"] for k in json.load(open(os.path.join(HERE, "known_findings.json")))["findings"] if k["status"] == "known")
+        except Exception:
+            known_ = set()
+        if not [k for k in keys if k not in known_] and getattr(res, "inconclusive", None):
+            return item["id"], "inconclusive", [res.inconclusive[0]]
         if item.get("want_counts"):
             return item["id"], "analysed" + base_tag, keys, counts
         return item["id"], "analysed" + base_tag, keys
@@ -110,6 +116,14 @@ def selftest(pid, repo, relevant_keys, known_keys, baseline_keys):
     for (it, _), r in zip(jobs, results):
         iid, status, keys = r[0], r[1], r[2]
         counts = r[3] if len(r) > 3 else None
+        if it["kind"] == "benign-unsupported":
+            out.setdefault("unsupported_inconclusive", 0)
+            if status == "inconclusive":
+                out["unsupported_inconclusive"] += 1
+            else:
+                out["failures"].append("%s (outside the analysable idioms) was expected to be inconclusive, got %s" % (iid, status))
+            out["details"].append({"id": iid, "status": status})
+            continue
         if not status.startswith("analysed"):
             out["skipped"] += 1
             out["details"].append({"id": iid, "status": status})
